@@ -512,7 +512,9 @@ impl Session {
                     .broad
                     .send(BroadCmd::SendHave { piece_index });
             }
-            None => panic!("Piece downloaded but not requested"),
+            // The peer was re-assigned (e.g. unchoked us again) while its connection task was
+            // still finishing the previous piece: nothing is recorded for it any more
+            None => (),
         }
 
         let chosen_index = self.choose_piece_index(addr).await;
@@ -538,7 +540,8 @@ impl Session {
                     Status::Have => Status::Have,
                 }
             }
-            None => panic!("Piece cancelled but not requested"),
+            // The peer has no assignment any more (see handle_piece_done): nothing to release
+            None => (),
         }
 
         let chosen_index = self.choose_piece_index(addr).await;
